@@ -253,3 +253,70 @@ Fixpoint timings_read (fuel : nat) (d : list Z) : list (list Z) :=
     | _ => []
     end
   end.
+
+(* ---------------------------------------------------------------- write histories of the write-only images
+   Poly4D / CompressedStart / CompressedSegment objects, the timings list and the LED objects hold nothing but
+   their fields: pack() / write_data() is a function of the CURRENT field values only.  A history of writes
+   through one memory object is therefore the list of the images of the individual writes. *)
+
+Inductive telem :=
+| TPoly (x y z yaw : list Z) (dur : Z)
+| TStart (x y z yaw : Z)
+| TSeg (dms : Z) (x y z yaw : list Z).
+
+Definition telem_pack (e : telem) : option (list Z) :=
+  match e with
+  | TPoly x y z yaw dur => poly4d_pack x y z yaw dur
+  | TStart x y z yaw => cstart_pack x y z yaw
+  | TSeg dms x y z yaw => cseg_pack dms x y z yaw
+  end.
+
+(* TrajectoryMemory.write_data: the pieces back to back; None = one of the packs raises (nothing is written) *)
+Fixpoint traj_image (l : list telem) : option (list Z) :=
+  match l with
+  | [] => Some []
+  | e :: t => match telem_pack e, traj_image t with
+              | Some a, Some b => Some (a ++ b)
+              | _, _ => None
+              end
+  end.
+
+(* one write_data(start_addr): (address, bytes handed to the memory handler, returned byte count) *)
+Definition traj_write (start : Z) (l : list telem) : option (Z * list Z * Z) :=
+  match traj_image l with
+  | Some img => Some (start, img, Z.of_nat (length img))
+  | None => None
+  end.
+
+Definition traj_history (h : list (Z * list telem)) : list (option (Z * list Z * Z)) :=
+  map (fun w => traj_write (fst w) (snd w)) h.
+
+(* reading n compressed segments back to back, as the firmware does *)
+Fixpoint csegs_read (n : nat) (d : list Z) : list (Z * list Z * list Z * list Z * list Z) * list Z :=
+  match n with
+  | O => ([], d)
+  | S k => let '(dms, x, y, z, yaw, rest) := cseg_read d in
+           let '(l, r) := csegs_read k rest in ((dms, x, y, z, yaw) :: l, r)
+  end.
+
+Definition seg_of (s : Z * list Z * list Z * list Z * list Z) : telem :=
+  let '(dms, x, y, z, yaw) := s in TSeg dms x y z yaw.
+
+(* LED ring (LEDDriverMemory): 12 LEDs, RGB565 scaled by the intensity (0..100), big endian *)
+Record led := mk_led { l_r : Z; l_g : Z; l_b : Z; l_int : Z }.
+
+Definition ring_565 (l : led) : Z :=
+  let r5 := Z.land (Z.shiftr (Z.land (l_r l) 255 * 249 + 1014) 11) 31 * l_int l / 100 in
+  let g6 := Z.land (Z.shiftr (Z.land (l_g l) 255 * 253 + 505) 10) 63 * l_int l / 100 in
+  let b5 := Z.land (Z.shiftr (Z.land (l_b l) 255 * 249 + 1014) 11) 31 * l_int l / 100 in
+  Z.lor (Z.lor (Z.shiftl r5 11) (Z.shiftl g6 5)) b5.
+
+Definition ring_write (leds : list led) : list Z :=
+  concat (map (fun l => let t := ring_565 l in [Z.shiftr t 8; Z.land t 255]) leds).
+
+(* LED.set(r, g, b, intensity=None): `if intensity:` — None and 0 both leave the intensity as it was *)
+Definition led_set (old : led) (r g b : Z) (i : option Z) : led :=
+  mk_led r g b (match i with Some v => if v =? 0 then l_int old else v | None => l_int old end).
+
+Definition timings_history (h : list (list timing)) : list (list Z) := map timings_write h.
+Definition ring_history (h : list (list led)) : list (list Z) := map ring_write h.
